@@ -55,6 +55,14 @@ type Split struct {
 	For    []string // clause labels the instances are restricted to (empty: everything)
 }
 
+// EnumSpec: `enumerate x in a..b` or `enumerate x subsetsof <expr>` in a lemma: the lemma is decided
+// by exhaustive execution over this domain (and the domain is its precondition)
+type EnumSpec struct {
+	Var    string
+	Lo, Hi int
+	Expr   string // subsets: every sub-bitset of this expression's value
+}
+
 type SpecParam struct {
 	Name string
 	Typ  string
@@ -141,6 +149,7 @@ type Contract struct {
 	Hide       []string // ground tables treated as uninterpreted in this unit (facts come from lemmas)
 	PropFor    map[string][]string // property -> clause labels: the unit serves that property with these clauses only
 	// lemma
+	Enums   []EnumSpec // executed lemma: the finite domain it is checked over by running the real initialised tables
 	IsLemma bool
 	Params  []SpecParam
 	Body    []SpecExpr // statements (call expressions or assignments)
@@ -154,6 +163,7 @@ type ContractSet struct {
 	Grounds   map[string]bool      // "pkg.global"
 	Frozen    map[string]bool      // "pkg.global": never written outside package initialisation
 	Writers   []WritersSpec        // field write whitelists
+	FrozenProps map[string][]string // explicitly frozen globals -> properties that own the check
 	Order     []string
 	Errors    []string
 }
@@ -287,6 +297,12 @@ func (cs *ContractSet) parseFile(path string) {
 			cs.Writers = append(cs.Writers, ws)
 			continue
 		case "ground", "frozen":
+			var fprops []string
+			if fm := regexp.MustCompile(`^(C\d+(?:,C\d+)*)\s+(.*)$`).FindStringSubmatch(rest); fm != nil && kw == "frozen" {
+				// `frozen C18 a b c`: the frozen check of these globals is an obligation of the property
+				fprops = strings.Split(fm[1], ",")
+				rest = fm[2]
+			}
 			for _, g := range strings.Fields(strings.ReplaceAll(rest, ",", " ")) {
 				if !strings.Contains(g, ".") {
 					g = pkg + "." + g
@@ -295,6 +311,12 @@ func (cs *ContractSet) parseFile(path string) {
 					cs.Grounds[g] = true
 				}
 				cs.Frozen[g] = true
+				if len(fprops) > 0 {
+					if cs.FrozenProps == nil {
+						cs.FrozenProps = map[string][]string{}
+					}
+					cs.FrozenProps[g] = fprops
+				}
 			}
 			continue
 		}
@@ -339,6 +361,22 @@ func (cs *ContractSet) parseFile(path string) {
 			loop().Invariants = append(loop().Invariants, mk(rest))
 		case "decreases":
 			loop().Decreases = append(loop().Decreases, mk(rest))
+		case "enumerate":
+			if cur == nil || !cur.IsLemma {
+				cs.errf("%s: enumerate outside a lemma", loc)
+				continue
+			}
+			if em := regexp.MustCompile(`^(\w+)\s+in\s+(-?\d+)\.\.(-?\d+)$`).FindStringSubmatch(rest); em != nil {
+				lo, _ := strconv.Atoi(em[2])
+				hi, _ := strconv.Atoi(em[3])
+				cur.Enums = append(cur.Enums, EnumSpec{Var: em[1], Lo: lo, Hi: hi})
+				cur.Requires = append(cur.Requires, mk(fmt.Sprintf("enum_%s: int(%s) >= %d && int(%s) <= %d", em[1], em[1], lo, em[1], hi)))
+			} else if em := regexp.MustCompile(`^(\w+)\s+subsetsof\s+(.+)$`).FindStringSubmatch(rest); em != nil {
+				cur.Enums = append(cur.Enums, EnumSpec{Var: em[1], Expr: em[2]})
+				cur.Requires = append(cur.Requires, mk(fmt.Sprintf("enum_%s: %s &^ (%s) == 0", em[1], em[1], em[2])))
+			} else {
+				cs.errf("%s: bad enumerate %q (syntax: enumerate x in a..b | enumerate x subsetsof <expr>)", loc, rest)
+			}
 		case "nowrap":
 			loop().NoWrap = append(loop().NoWrap, mk(rest))
 		case "unroll":
